@@ -23,7 +23,6 @@ Section Meta.
     v_kind : vkind;       (* colvarvalue type of the variable: scalar, 3vector (distanceVec), unit3vector (distanceDir) *)
     v_periodic : bool;    (* f_cvc_periodic: dist2 takes the minimum image (scalars) *)
     v_period : T;
-    v_sigma : T;          (* colvar_sigmas[i] *)
     v_width : T;          (* widths[i] of the grids = colvar::width *)
     v_gperiodic : bool;   (* colvar_grid::periodic[i] *)
     v_expand : bool;      (* colvar::expand_boundaries *)
@@ -36,6 +35,7 @@ Section Meta.
   Record cfg := mkCfg {
     c_vars : list var_cfg;
     c_geom0 : list bound;          (* grid geometry at initialisation *)
+    c_sigmas : list T;             (* colvar_sigmas: the widths given to the hills added from now on *)
     c_weight : T;                  (* hill_weight *)
     c_hill_width : T;              (* hill_width (0 when gaussianSigmas is used) *)
     c_freq : Z;                    (* new_hill_freq *)
@@ -53,7 +53,12 @@ Section Meta.
   }.
 
   Local Notation value := (list T).      (* components of one variable *)
-  Record hill := mkHill { h_it : Z; h_W : T; h_c : list value }.
+  (* a hill keeps the widths it was created with (hill::sigmas; they are written to and read from the state) *)
+  Record hill := mkHill { h_it : Z; h_W : T; h_c : list value; h_s : list T }.
+
+  (* what a run that continues from a state may configure differently: gaussianSigmas / hillWidth, hillWeight,
+     newHillFrequency *)
+  Record params := mkPar { p_sigmas : list T; p_hill_width : T; p_weight : T; p_freq : Z }.
 
   (* one engine step as seen by the bias *)
   Record step_in := mkIn {
@@ -66,8 +71,10 @@ Section Meta.
   (* what happens to the bias: a step of the engine; the state being written (end of a run, restart
      frequency); a restart: the state is written and read by a fresh instance with the same configuration,
      except, with [Some g], for new grid boundaries g and rebinGrids on; a reload: the state is written and read
-     back by the same instance, which already holds hills *)
-  Inductive event := EStep (i : step_in) | ESave | ERestart (rebin : option (list bound)) | EReload.
+     back by the same instance, which already holds hills; a reconfiguration: a restart after which the job goes on
+     with other hill widths, weight or frequency *)
+  Inductive event := EStep (i : step_in) | ESave | ERestart (rebin : option (list bound)) | EReload
+                   | EReconf (p : params).
 
   (* ---- metric of one variable: colvar::dist2 / dist2_lgrad ---- *)
 
@@ -133,32 +140,32 @@ Section Meta.
   (* ---- kernel: calc_hills / calc_hills_force ---- *)
 
   (* cv_sqdev += dist2(x, center) / (sigma*sigma) *)
-  Fixpoint sqdev (vs : list var_cfg) (x c : list value) (acc : T) : T :=
-    match vs, x, c with
-    | v :: vs', xi :: x', ci :: c' =>
-        sqdev vs' x' c' (nadd O acc (ndiv O (vdist2 v xi ci) (nmul O (v_sigma v) (v_sigma v))))
-    | _, _, _ => acc
+  Fixpoint sqdev (vs : list var_cfg) (sg : list T) (x c : list value) (acc : T) : T :=
+    match vs, sg, x, c with
+    | v :: vs', si :: sg', xi :: x', ci :: c' =>
+        sqdev vs' sg' x' c' (nadd O acc (ndiv O (vdist2 v xi ci) (nmul O si si)))
+    | _, _, _, _ => acc
     end.
 
   (* h->value(): 0 if cv_sqdev > 23.0, else exp(-0.5*cv_sqdev) *)
-  Definition kval (vs : list var_cfg) (x c : list value) : T :=
-    let q := sqdev vs x c (n0 O) in
+  Definition kval (vs : list var_cfg) (sg : list T) (x c : list value) : T :=
+    let q := sqdev vs sg x c (n0 O) in
     if nltb O (nofZ O 23) q then n0 O else nexp O (nmul O (nneg O (nhalf O)) q).
 
   Definition hweight (h : hill) : T := nmul O (h_W h) (n1 O).            (* W * sW, sW = 1 *)
   Definition henergy (vs : list var_cfg) (x : list value) (h : hill) : T :=   (* W * sW * hill_value *)
-    nmul O (hweight h) (kval vs x (h_c h)).
+    nmul O (hweight h) (kval vs (h_s h) x (h_c h)).
 
   (* calc_hills: energy += h->energy() over [first, last) *)
   Definition hills_energy (vs : list var_cfg) (x : list value) (hs : list hill) (e0 : T) : T :=
     fold_left (fun e h => nadd O e (henergy vs x h)) hs e0.
 
   (* weight*value * (0.5/(sigma*sigma)) * dist2_lgrad, for variable i *)
-  Definition fterm (vs : list var_cfg) (x c : list value) (wk : T) (i : nat) : value :=
-    match nth_error vs i, nth_error x i, nth_error c i with
-    | Some v, Some xi, Some ci =>
-        map (nmul O (nmul O wk (ndiv O (nhalf O) (nmul O (v_sigma v) (v_sigma v))))) (vlgrad v xi ci)
-    | _, _, _ => []
+  Definition fterm (vs : list var_cfg) (sg : list T) (x c : list value) (wk : T) (i : nat) : value :=
+    match nth_error vs i, nth_error sg i, nth_error x i, nth_error c i with
+    | Some v, Some si, Some xi, Some ci =>
+        map (nmul O (nmul O wk (ndiv O (nhalf O) (nmul O si si)))) (vlgrad v xi ci)
+    | _, _, _, _ => []
     end.
 
   Fixpoint vadd (a b : value) : value :=
@@ -169,9 +176,9 @@ Section Meta.
 
   (* calc_hills_force for variable i: hills whose value is 0 are skipped *)
   Definition hforce (vs : list var_cfg) (x : list value) (i : nat) (f : value) (h : hill) : value :=
-    let k := kval vs x (h_c h) in
+    let k := kval vs (h_s h) x (h_c h) in
     if neqb O k (n0 O) then f
-    else vadd f (fterm vs x (h_c h) (nmul O (hweight h) k) i).
+    else vadd f (fterm vs (h_s h) x (h_c h) (nmul O (hweight h) k) i).
   Definition hills_force (vs : list var_cfg) (x : list value) (i : nat) (hs : list hill) (f0 : value) : value :=
     fold_left (hforce vs x i) hs f0.
 
@@ -225,17 +232,26 @@ Section Meta.
     end.
 
   (* hill_width_bins(): hill_width, or the largest 2*sigma/width when gaussianSigmas is used *)
+  (* the largest 2*sigma_i/width_i *)
+  Fixpoint hwb_max (vs : list var_cfg) (sg : list T) (w : T) : T :=
+    match vs, sg with
+    | v :: vs', si :: sg' =>
+        let wi := ndiv O (nmul O (nofZ O 2) si) (v_width v) in
+        hwb_max vs' sg' (if nltb O w wi then wi else w)
+    | _, _ => w
+    end.
   Definition hw_bins (c : cfg) : T :=
     if nltb O (n0 O) (c_hill_width c) then c_hill_width c
-    else fold_left (fun w v => let wi := ndiv O (nmul O (nofZ O 2) (v_sigma v)) (v_width v) in
-                               if nltb O w wi then wi else w) (c_vars c) (c_hill_width c).
+    else hwb_max (c_vars c) (c_sigmas c) (c_hill_width c).
+  (* hill_width_bins(h): the width of one hill, from its own sigmas *)
+  Definition hw_bins_h (c : cfg) (sg : list T) : T := hwb_max (c_vars c) sg (n0 O).
 
-  (* (3.0 * hill_width_bins()) + 1.0 *)
-  Definition off_margin (c : cfg) : T := nadd O (nmul O (nofZ O 3) (hw_bins c)) (n1 O).
-  Definition near_edge (c : cfg) (g : list bound) (x : list value) : bool :=
-    nltb O (bin_dist (c_vars c) g x (nofZ O 10000000000000000)) (off_margin c).
+  (* (3.0 * hill_width_bins(h)) + 1.0: the margin within which hill h is kept in hills_off_grid *)
+  Definition off_margin (c : cfg) (sg : list T) : T := nadd O (nmul O (nofZ O 3) (hw_bins_h c sg)) (n1 O).
+  Definition near_edge (c : cfg) (g : list bound) (sg : list T) (x : list value) : bool :=
+    nltb O (bin_dist (c_vars c) g x (nofZ O 10000000000000000)) (off_margin c sg).
 
-  Definition near_hill (c : cfg) (g : list bound) (h : hill) : bool := near_edge c g (h_c h).
+  Definition near_hill (c : cfg) (g : list bound) (h : hill) : bool := near_edge c g (h_s h) (h_c h).
 
   (* ---- state ---- *)
 
@@ -374,10 +390,10 @@ Section Meta.
                    then nmul O s1 (nexp O (ndiv O (nmul O (nneg O (n1 O)) (wt_energy_here c s (i_x i)))
                                                (nmul O (c_bias_temp c) (c_kb c))))
                    else s1 in
-      let h := mkHill (i_it i) (nmul O (c_weight c) scale) (i_x i) in
+      let h := mkHill (i_it i) (nmul O (c_weight c) scale) (i_x i) (c_sigmas c) in
       (* add_hill *)
       mkState (st_old s) (st_new s ++ [h]) (st_off_old s)
-              (if c_use_grids c && near_edge c (st_geom s) (i_x i) then st_off_new s ++ [h] else st_off_new s)
+              (if c_use_grids c && near_hill c (st_geom s) h then st_off_new s ++ [h] else st_off_new s)
               (st_e s) (st_g s) (st_geom s) (st_traj s ++ [h])
     else s.
 
@@ -457,14 +473,30 @@ Section Meta.
     let s1 := read_state c (save_state c s) in
     mkState (st_old s1) (st_new s1) (st_off_old s1) (st_off_new s1) (st_e s1) (st_g s1) (st_geom s1) (st_traj s).
 
+  (* the configuration of the run that follows an event *)
+  Definition with_par (c : cfg) (p : params) : cfg :=
+    mkCfg (c_vars c) (c_geom0 c) (p_sigmas p) (p_weight p) (p_hill_width p) (p_freq p) (c_gfreq c) (c_use_grids c)
+          (c_keep c) (c_wt c) (c_bias_temp c) (c_kb c) (c_step_zero c) (c_eb c) (c_eb_equil c) (c_eb_target c).
+  Definition next_cfg (c : cfg) (e : event) : cfg := match e with EReconf p => with_par c p | _ => c end.
+
+  (* the state is written under the old configuration and read by an instance with the new one (what is read does not
+     depend on the widths, weight or frequency configured) *)
   Definition apply_event (c : cfg) (s : state) (e : event) : state :=
     match e with
     | EStep i => step_state c s i | ESave => save_state c s | ERestart r => restart_state c s r
     | EReload => reload_state c s
+    | EReconf _ => restart_state c s None
     end.
 
-  Definition final_state (c : cfg) (hist : list event) : state :=
-    fold_left (apply_event c) hist (init_state c).
+  (* a history is run with the configuration in force at each event *)
+  Fixpoint frun {A : Type} (f : cfg -> A -> event -> A) (c : cfg) (hist : list event) (a : A) : A :=
+    match hist with
+    | [] => a
+    | e :: r => frun f (next_cfg c e) r (f c a e)
+    end.
+  Definition final_cfg (c : cfg) (hist : list event) : cfg := fold_left next_cfg hist c.
+
+  Definition final_state (c : cfg) (hist : list event) : state := frun apply_event c hist (init_state c).
 
   (* ---- write_pmf (writeFreeEnergyFile): max(E) - E over the energy grid, times (bias_temperature + T)/bias_temperature
      for well-tempered runs (single replica, no ebMeta) ---- *)
@@ -484,10 +516,12 @@ Section Meta.
     end.
 
   (* add_constant(-1.0 * max); multiply_constant(-1.0); multiply_constant(well_temper_scale) *)
-  Definition pmf_value (c : cfg) (s : state) (temp : T) (ix : list Z) : T :=
-    let mx := grid_max (st_e s) (all_ix (gsizes (st_geom s))) in
-    let v := nmul O (nadd O (st_e s ix) (nmul O (nneg O (n1 O)) mx)) (nneg O (n1 O)) in
+  Definition pmf_shift (c : cfg) (temp mx e : T) : T :=
+    let v := nmul O (nadd O e (nmul O (nneg O (n1 O)) mx)) (nneg O (n1 O)) in
     if c_wt c then nmul O v (ndiv O (nadd O (c_bias_temp c) temp) (c_bias_temp c)) else v.
+
+  Definition pmf_value (c : cfg) (s : state) (temp : T) (ix : list Z) : T :=
+    pmf_shift c temp (grid_max (st_e s) (all_ix (gsizes (st_geom s)))) (st_e s ix).
 
   (* observers used by the correspondence driver *)
   Definition grid_energy_at (s : state) (ix : list Z) : T := st_e s ix.
